@@ -625,6 +625,55 @@ def gen_xopts(rng, value):
   return o
 
 
+SCOPE_OPTS = ('enable_summary', 'enable_summary_for_str', 'max_summary_len_for_str', 'enable_summary_tooltip',
+              'enable_key_tooltip', 'key_style', 'collapse_level', 'include_keys', 'exclude_keys')
+
+
+def gen_history(rng):
+  """A sequence of renders inside one enclosing `pg.view_options` scope; some steps add per-call
+  options or a nested scope. Each render must be what it would be on a fresh options state."""
+  n = rng.randint(2, 4)
+  values = [gen_value(rng, rng.randint(1, 2)) for _ in range(n)]
+  values = [v if child_keys(v) else {'t': 'dict', 'items': [[gen_key(rng, []), v]]} for v in values]
+
+  def pick(avail, value, k):
+    out = {}
+    for name in rng.sample(avail, min(k, len(avail))):
+      if name == 'enable_summary':
+        out[name] = rng.choice([True, False])
+      elif name in ('enable_summary_for_str', 'enable_summary_tooltip', 'enable_key_tooltip'):
+        out[name] = False
+      elif name == 'max_summary_len_for_str':
+        out[name] = rng.choice([0, 3, 10, 200])
+      elif name == 'key_style':
+        out[name] = 'label'
+      elif name == 'collapse_level':
+        out[name] = rng.choice([0, 2, 3])
+      else:
+        keys = child_keys(value)
+        out[name] = [rng.choice(keys) for _ in range(rng.randint(1, 2))] if keys else []
+    return out
+
+  avail = list(SCOPE_OPTS)
+  outer = pick([a for a in avail if a not in ('include_keys', 'exclude_keys')], values[0], rng.below(3))
+  steps = []
+  for i, v in enumerate(values):
+    rest = [a for a in avail if a not in outer]
+    inner = pick(rest, v, rng.randint(1, 2)) if rng.chance(0.45) else None
+    rest = [a for a in rest if not inner or a not in inner]
+    call = pick(rest, v, rng.randint(1, 2)) if (rng.chance(0.5) or (inner is None and i == 0)) else {}
+    steps.append({'value': v, 'opts': call, 'inner': inner})
+  return {'op': 'history', 'outer': outer, 'steps': steps}
+
+
+def merged_opts(case, step):
+  o = dict(DEFAULT_OPTS)
+  o.update(case['outer'])
+  o.update(step['inner'] or {})
+  o.update(step['opts'])
+  return o
+
+
 def gen_control(rng):
   k = rng.below(4)
   css = lambda: [rng.choice(CSS) for _ in range(rng.below(3))]
@@ -897,6 +946,8 @@ class C20(Prop):
       yield {'op': 'jsescape', 's': gen_js_string(rng)}
     for _ in range(200 if quick else 3000):
       yield gen_update(rng)
+    for _ in range(150 if quick else 2500):
+      yield gen_history(rng)
 
   # -- model side ---------------------------------------------------------------------------
   def model_request(self, case):
@@ -934,6 +985,14 @@ class C20(Prop):
       return self._control_request(case)
     if op == 'jsescape':
       return {'op': 'jsescape', 's': cps(case['s'])}
+    if op == 'history':
+      items = []
+      for st in case['steps']:
+        r = self.model_request({'op': 'render', 'value': st['value'], 'opts': merged_opts(case, st)})
+        if r is None:
+          return None
+        items.append({'opts': r['opts'], 'tree': r['tree']})
+      return {'op': 'renders', 'items': items}
     if op == 'update':
       # the literals the real code emits for this update (obtained in this process; addresses renumbered)
       self.setup_impl()
@@ -1226,7 +1285,47 @@ class C20(Prop):
               'escaped': e, 'read': r}
     if op == 'update':
       return self._impl_update(case)
+    if op == 'history':
+      return self._impl_history(case)
     raise ValueError(op)
+
+  def _impl_history(self, case):
+    import contextlib
+    import pyglove as pg
+
+    def sub(d, step):
+      kw = self._kwargs(merged_opts(case, step))
+      return {k: kw[k] for k in d}
+
+    values = [self._build(st['value']) for st in case['steps']]
+    before = [self._snapshot(v) for v in values]
+
+    def run(i, st):
+      with contextlib.ExitStack() as stack:
+        if st['inner']:
+          stack.enter_context(pg.view_options(**sub(st['inner'], st)))
+        return pg.to_html_str(values[i], content_only=True, **sub(st['opts'], st))
+
+    try:
+      seq = []
+      with pg.view_options(**sub(case['outer'], case['steps'][0])):
+        for i, st in enumerate(case['steps']):
+          seq.append(run(i, st))
+      fresh = []
+      for i, st in enumerate(case['steps']):
+        with pg.view_options(**sub(case['outer'], st)):
+          fresh.append(run(i, st))
+    except Exception as e:   # pylint: disable=broad-except
+      return {'error': type(e).__name__, 'message': str(e)[:200]}
+    steps = []
+    for i, st in enumerate(case['steps']):
+      tree, why = strict_parse(seq[i])
+      missing = []
+      if tree is not None:
+        missing = self._missing({'value': st['value'], 'opts': merged_opts(case, st)}, texts_of(tree))
+      steps.append({'ok': tree is not None, 'why': why, 'same_as_fresh': seq[i] == fresh[i], 'missing': missing})
+    return {'steps': steps, 'unchanged': [self._snapshot(v) for v in values] == before,
+            'model': {'htmls': seq}}
 
   def _impl_update(self, case):
     """Renders an interactive control, performs an update and reads every user-text literal of the
@@ -1492,6 +1591,16 @@ class C20(Prop):
       if a['read'] != model_out['read']:
         return 'JS literal readers differ on %r: python=%s lean=%s' % (impl_out['escaped'], a['read'], model_out['read'])
       return None
+    if op == 'history':
+      b = [None if h is None else uncps(h) for h in model_out['htmls']]
+      for i, (x, y) in enumerate(zip(a['htmls'], b)):
+        if x != y:
+          k = 0
+          while y is not None and k < min(len(x), len(y)) and x[k] == y[k]:
+            k += 1
+          return 'render #%d of the history differs from the model at %d: impl=…%r model=…%r' % (
+              i, k, x[max(0, k - 30):k + 50], (y or '')[max(0, k - 30):k + 50])
+      return None
     if op == 'update':
       b = [None if r is None else uncps(r['value']) for r in model_out['reads']]
       if a['reads'] != b:
@@ -1543,6 +1652,27 @@ class C20(Prop):
       return None
     if op == 'update':
       return self._oracle_update(case, out)
+    if op == 'history':
+      if 'error' in out:
+        return {'signature': 'render-raises:' + out['error'], 'what': 'a render of the history raised: %s' % out.get('message')}
+      for i, st in enumerate(out['steps']):
+        if not st['ok']:
+          return {'signature': 'not-well-formed', 'what': 'render #%d of the history: %s' % (i, st['why'])}
+        real_missing = [m for m in st['missing'] if not (m['what'] == 'key' and m.get('summary_disabled'))]
+        if not st['same_as_fresh']:
+          return {'signature': 'render-depends-on-history',
+                  'what': 'render #%d inside the enclosing view_options scope differs from the same render on a fresh '
+                          'options state (options of earlier renders / inner scopes leaked)%s' % (
+                              i, '; missing: %r' % [m['text'] for m in real_missing][:4] if real_missing else '')}
+        if real_missing:
+          m = real_missing[0]
+          return {'signature': m['what'] + '-missing',
+                  'what': 'render #%d of the history: %s text %r is not a text node of the output' % (i, m['what'], m['text'])}
+        for m in st['missing']:
+          return {'signature': 'key-missing:summary-disabled', 'what': 'key %r dropped (summary disabled)' % m['text']}
+      if not out['unchanged']:
+        return {'signature': 'value-modified', 'what': 'a value changed by rendering'}
+      return None
     if op == 'control':
       return self._oracle_control(case, out)
     # render
@@ -1650,6 +1780,8 @@ class C20(Prop):
     op = case['op']
     if op in ('escape', 'parse'):
       return has_meta(case['s'])
+    if op == 'history':
+      return any(st['inner'] or st['opts'] for st in case['steps'][:-1])
     if op == 'jsescape':
       return any(c in case['s'] for c in '\\"\n\r\t')
     if op == 'update':
@@ -1674,6 +1806,16 @@ class C20(Prop):
                              'well-formed' if out['model']['doc'] is not None else 'malformed-children'))
     elif op == 'control':
       h.append('control:' + case['kind'])
+    elif op == 'history':
+      h.append('history-steps:%d' % len(case['steps']))
+      h.append('history-outer-opts:%d' % len(case['outer']))
+      if any(st['inner'] for st in case['steps']):
+        h.append('history:nested-scope')
+      if any(st['opts'] for st in case['steps']):
+        h.append('history:per-call-options')
+      for st in case['steps']:
+        for k in list(st['opts']) + list(st['inner'] or {}):
+          h.append('history-opt:' + k)
     elif op == 'update':
       h.append('update:' + case['kind'])
       h.append('update-literals:%d' % len(out.get('lits', [])))
@@ -1727,6 +1869,25 @@ class C20(Prop):
     return h
 
   def shrink_candidates(self, case):
+    if case['op'] == 'history':
+      for i in range(len(case['steps'])):
+        if len(case['steps']) > 2:
+          c = json.loads(json.dumps(case))
+          del c['steps'][i]
+          yield c
+      for k in list(case['outer']):
+        c = json.loads(json.dumps(case))
+        del c['outer'][k]
+        yield c
+      for i, st in enumerate(case['steps']):
+        for part in ('opts', 'inner'):
+          for k in list(st[part] or {}):
+            c = json.loads(json.dumps(case))
+            del c['steps'][i][part][k]
+            if part == 'inner' and not c['steps'][i][part]:
+              c['steps'][i][part] = None
+            yield c
+      return
     if case['op'] != 'render':
       return
     v = case['value']
